@@ -85,6 +85,14 @@ FIXED = [
     ("index-arr", "Arr[1]", "int", N("IndexExpr", ID, LIT), "ok"),
     ("index-map", 'Mp["k"]', "int", N("IndexExpr", ID, LIT), "ok"),
     ("slice-expr", "Sl[1:2]", "[]int", N("SliceExpr", ID, LIT, LIT), "ok"),
+    # keys of map / array / slice literals are ordinary expressions (only struct literal keys are field names)
+    ("map-key-ident", 'map[int]string{Const: "c", Num: "n"}', "map[int]string",
+     N("CompositeLit", N("MapType", ID, ID), N("KeyValueExpr", ID, LIT), N("KeyValueExpr", ID, LIT)), "ok"),
+    ("array-key-ident", '[...]string{Const: "x"}[Const]', "string",
+     N("IndexExpr", N("CompositeLit", N("ArrayType", N("Ellipsis"), ID), N("KeyValueExpr", ID, LIT)), ID), "conservative"),
+    ("slice-key-ident", '[]string{Const: "v"}', "[]string", N("CompositeLit", N("ArrayType", ID), N("KeyValueExpr", ID, LIT)), "ok"),
+    ("map-key-struct", 'map[T]int{Val: 1, {X: 2}: 2}', "map[T]int",
+     N("CompositeLit", N("MapType", ID, ID), N("KeyValueExpr", ID, LIT), N("KeyValueExpr", N("CompositeLit", N("KeyValueExpr", ID, LIT)), LIT)), "ok"),
     # full slice expressions: the capacity is part of the value
     ("slice3-expr", "Sl[0:1:1]", "[]int", N("SliceExpr", ID, LIT, LIT, LIT), "ok"),
     ("slice3-arr", "Arr[1:2:2]", "[]int", N("SliceExpr", ID, LIT, LIT, LIT), "ok"),
